@@ -1,14 +1,39 @@
-(* C11 — BitSetVector: the flat vector<bool> addressed through (block, bit) is the list of blocks.
-   PARTIAL: only the addressing lemma (getBit / setBit of block i, bit j act on block i alone) is proved; the lifting to
-   every operation of the history interpreter (assign / shift / bitwise loops, resize, counts) is NOT proved yet. *)
+(* C11 — BitSetVector: the flat vector<bool> addressed through (block, bit) is the list of blocks, for every history. *)
 From Coq Require Import List Arith Bool PeanoNat Lia.
-From DuneV Require Import C11_Model C11_Spec C11_Proofs.
+From DuneV Require Import C11_Model C11_Spec C11_Proofs C11_Proofs_RV.
 Import ListNotations.
 
 Lemma c11_set_nth_app_l {A} (l1 l2 : list A) i x : i < length l1 -> c11_set_nth (l1 ++ l2) i x = c11_set_nth l1 i x ++ l2.
 Proof. revert i; induction l1 as [| a l1 IH]; intros [| i] H; simpl in *; try lia; auto. rewrite IH by lia. reflexivity. Qed.
 Lemma c11_set_nth_app_r {A} (l1 l2 : list A) i x : c11_set_nth (l1 ++ l2) (length l1 + i) x = l1 ++ c11_set_nth l2 i x.
 Proof. induction l1 as [| a l1 IH]; simpl; auto. rewrite IH. reflexivity. Qed.
+
+Lemma c11_set_nth_twice {A} (l : list A) i x y : c11_set_nth (c11_set_nth l i x) i y = c11_set_nth l i y.
+Proof. revert i; induction l as [| a l IH]; intros [| i]; simpl; auto. f_equal; auto. Qed.
+Lemma c11_set_nth_id {A} (l : list A) i x : nth_error l i = Some x -> c11_set_nth l i x = l.
+Proof. revert i; induction l as [| a l IH]; intros [| i] H; simpl in *; try discriminate. injection H as ->; auto. f_equal; auto. Qed.
+Lemma c11_firstn_S_nth {A} (l : list A) j d : j < length l -> firstn (S j) l = firstn j l ++ [nth j l d].
+Proof. revert j; induction l as [| a l IH]; intros [| j] H; simpl in *; try lia; auto. f_equal. apply IH. lia. Qed.
+Lemma c11_skipn_nth_d {A} (l : list A) j d : j < length l -> skipn j l = nth j l d :: skipn (S j) l.
+Proof. revert j; induction l as [| a l IH]; intros [| j] H; simpl in *; try lia; auto. apply IH; lia. Qed.
+Lemma c11_nth0_skipn {A} (b : list A) j d : nth 0 (skipn j b) d = nth j b d.
+Proof. revert j; induction b as [| a b IH]; intros [| j]; simpl; auto. Qed.
+Lemma c11_nth_blk {A} (newb b : list A) j d : j <= length newb -> nth j (firstn j newb ++ skipn j b) d = nth j b d.
+Proof.
+  intros H. rewrite app_nth2; rewrite firstn_length_le by auto; [| lia]. rewrite Nat.sub_diag. apply c11_nth0_skipn.
+Qed.
+Lemma c11_blk_step {A} (newb b : list A) j d : length newb = length b -> j < length b ->
+  c11_set_nth (firstn j newb ++ skipn j b) j (nth j newb d) = firstn (S j) newb ++ skipn (S j) b.
+Proof.
+  intros Hl Hj. rewrite (c11_skipn_nth_d b j d Hj).
+  pose proof (c11_set_nth_app_r (firstn j newb) (nth j b d :: skipn (S j) b) 0 (nth j newb d)) as H.
+  rewrite firstn_length_le in H by lia. rewrite Nat.add_0_r in H. cbn [c11_set_nth] in H. rewrite H.
+  rewrite (c11_firstn_S_nth newb j d) by lia. rewrite <- app_assoc. reflexivity.
+Qed.
+Lemma c11_nth_repeat_lt {A} (v d : A) n j : j < n -> nth j (repeat v n) d = v.
+Proof. revert j; induction n; intros [| j] H; simpl; try lia; auto. apply IHn; lia. Qed.
+Lemma c11_zip_length f a b : length (c11_bitset_zip f a b) = Nat.min (length a) (length b).
+Proof. revert b; induction a as [| x a IH]; intros [| y b]; simpl; auto. Qed.
 
 Section BVP.
   Variable bs : nat.
@@ -59,4 +84,256 @@ Section BVP.
   Qed.
   Lemma c11_bv_wf_dec w : forallb (fun b => length b =? bs) w = true -> c11_bv_wf w.
   Proof. intros H. unfold c11_bv_wf. rewrite Forall_forall. rewrite forallb_forall in H. intros x Hx. apply Nat.eqb_eq. auto. Qed.
+
+  (* ------------------------------------------------------------ per-bit loops on block i *)
+  Lemma wf_set_nth w i x : c11_bv_wf w -> length x = bs -> c11_bv_wf (c11_set_nth w i x).
+  Proof.
+    unfold c11_bv_wf. rewrite !Forall_forall. intros Hwf Hx y Hy. apply In_nth_error in Hy. destruct Hy as [k Hk].
+    destruct (Nat.eq_dec i k) as [<- | Hne].
+    - assert (Hlt : i < length w) by (rewrite <- (c11_set_nth_length w i x); apply nth_error_Some; rewrite Hk; discriminate).
+      rewrite c11_set_nth_same in Hk by auto. congruence.
+    - rewrite c11_set_nth_other in Hk by auto. apply Hwf. eapply nth_error_In; eauto.
+  Qed.
+  Lemma wf_len w i b : c11_bv_wf w -> nth_error w i = Some b -> length b = bs.
+  Proof. unfold c11_bv_wf. rewrite Forall_forall. intros H Hi. apply H. eapply nth_error_In; eauto. Qed.
+
+  Section LOOP.
+    Variables (w : list (list bool)) (i : nat) (b newb : list bool).
+    Hypothesis Hwf : c11_bv_wf w.
+    Hypothesis Hi : nth_error w i = Some b.
+    Hypothesis Hnew : length newb = bs.
+    Let Hb : length b = bs := wf_len w i b Hwf Hi.
+    Definition blk (j : nat) : list bool := firstn j newb ++ skipn j b.
+    Definition W (j : nat) : list (list bool) := c11_set_nth w i (blk j).
+
+    Lemma blk_len j : j <= bs -> length (blk j) = bs.
+    Proof. intros Hj. unfold blk. rewrite app_length, firstn_length_le, skipn_length by lia. lia. Qed.
+    Lemma W_wf j : j <= bs -> c11_bv_wf (W j).
+    Proof. intros. apply wf_set_nth; auto. apply blk_len; auto. Qed.
+    Lemma W_i j : nth_error (W j) i = Some (blk j).
+    Proof. apply c11_set_nth_same. apply nth_error_Some. congruence. Qed.
+    Lemma W_other j k : k <> i -> nth_error (W j) k = nth_error w k.
+    Proof. intros. apply c11_set_nth_other. auto. Qed.
+    Lemma W_0 : W 0 = w.
+    Proof. unfold W, blk. simpl. apply c11_set_nth_id; auto. Qed.
+    Lemma W_bs : W bs = c11_set_nth w i newb.
+    Proof. unfold W, blk. rewrite <- Hnew at 1. rewrite firstn_all. rewrite <- Hb. rewrite skipn_all. rewrite app_nil_r. reflexivity. Qed.
+
+    (* writing bit j of the new block on top of the state where bits < j are already written *)
+    Lemma write_step j : j < bs -> c11_bv_setBit bs (concat (W j)) i j (nth j newb false) = C11_ok (concat (W (S j))).
+    Proof.
+      intros Hj. destruct (c11_bitset_addressing_lemma (W j) i j (blk j) (nth j newb false)) as (_ & Hs & _).
+      apply W_wf; lia. apply W_i. auto.
+      rewrite Hs. unfold W at 1. rewrite c11_set_nth_twice. unfold W. f_equal. f_equal. f_equal.
+      unfold blk. apply c11_blk_step; lia.
+    Qed.
+    Lemma read_i j : j < bs -> c11_bv_getBit bs (concat (W j)) i j = C11_ok (nth j b false).
+    Proof.
+      intros Hj. destruct (c11_bitset_addressing_lemma (W j) i j (blk j) false) as (Hg & _ & _).
+      apply W_wf; lia. apply W_i. auto. rewrite Hg. unfold blk. rewrite c11_nth_blk by lia. reflexivity.
+    Qed.
+    Lemma read_other j k x : j < bs -> k <> i -> nth_error w k = Some x -> c11_bv_getBit bs (concat (W j)) k j = C11_ok (nth j x false).
+    Proof.
+      intros Hj Hk Hx. destruct (c11_bitset_addressing_lemma (W j) k j x false) as (Hg & _ & _); auto.
+      apply W_wf; lia. rewrite W_other; auto.
+    Qed.
+
+    Lemma each_ok (f : c11_bv -> nat -> c11_res c11_bv) :
+      (forall j, j < bs -> f (concat (W j)) j = C11_ok (concat (W (S j)))) ->
+      c11_bv_each bs 0 (concat w) f = C11_ok (concat (c11_set_nth w i newb)).
+    Proof.
+      intros Hf.
+      assert (G : forall k j, j + k = bs -> c11_bv_each k j (concat (W j)) f = C11_ok (concat (W bs))).
+      { induction k as [| k IH]; intros j Hj; simpl.
+        - replace j with bs by lia. reflexivity.
+        - rewrite Hf by lia. simpl. apply IH. lia. }
+      rewrite <- W_0 at 1. rewrite <- W_bs. apply G. lia.
+    Qed.
+
+    Lemma assign_ok : c11_bv_assign bs (concat w) i newb = C11_ok (concat (c11_set_nth w i newb)).
+    Proof.
+      assert (G : forall k j, j + k = bs -> c11_bv_assign_loop bs j (concat (W j)) i (skipn j newb) = C11_ok (concat (W bs))).
+      { induction k as [| k IH]; intros j Hj.
+        - replace j with bs by lia. rewrite skipn_all2 by lia. reflexivity.
+        - rewrite (c11_skipn_nth_d newb j false) by lia. cbn [c11_bv_assign_loop]. rewrite write_step by lia. simpl. apply IH. lia. }
+      unfold c11_bv_assign. rewrite <- W_0 at 1. rewrite <- W_bs. apply (G bs 0). lia.
+    Qed.
+  End LOOP.
+
+  Lemma write_const w i b v j : c11_bv_wf w -> nth_error w i = Some b -> j < bs ->
+    c11_bv_setBit bs (concat (W w i b (repeat v bs) j)) i j v = C11_ok (concat (W w i b (repeat v bs) (S j))).
+  Proof.
+    intros Hwf Ei Hj. pose proof (write_step w i b (repeat v bs) Hwf Ei (repeat_length _ _) j Hj) as Hw.
+    rewrite (c11_nth_repeat_lt v false bs j Hj) in Hw. exact Hw.
+  Qed.
+
+  Lemma repr_ok w i b : c11_bv_wf w -> nth_error w i = Some b -> c11_bv_getRepr bs (concat w) i = C11_ok b.
+  Proof.
+    intros Hwf Hi. pose proof (wf_len w i b Hwf Hi) as Hb.
+    assert (G : forall k j, j + k = bs -> c11_bv_repr_loop bs k j (concat w) i = C11_ok (skipn j b)).
+    { induction k as [| k IH]; intros j Hj; simpl.
+      - rewrite skipn_all2 by lia. reflexivity.
+      - destruct (c11_bitset_addressing_lemma w i j b false Hwf Hi) as (Hg & _ & _). lia.
+        rewrite Hg. simpl. rewrite IH by lia. simpl. rewrite (c11_skipn_nth_d b j false) by lia. reflexivity. }
+    unfold c11_bv_getRepr. apply (G bs 0). lia.
+  Qed.
+
+  (* ------------------------------------------------------------ whole-vector lemmas *)
+  Lemma firstn_concat : forall n w, c11_bv_wf w -> firstn (n * bs) (concat w) = concat (firstn n w).
+  Proof.
+    induction n as [| n IH]; intros w Hwf. reflexivity.
+    destruct w as [| b w]. simpl. destruct (bs + n * bs); reflexivity.
+    apply Forall_cons_iff in Hwf. destruct Hwf as [Hb0 Hwf']. cbn [concat firstn].
+    replace (S n * bs) with (length b + n * bs) by (simpl; lia). rewrite firstn_app_2. rewrite IH by auto. reflexivity.
+  Qed.
+  Lemma concat_repeat (v : bool) a : concat (repeat (repeat v bs) a) = repeat v (a * bs).
+  Proof. induction a as [| a IH]; simpl; auto. rewrite IH. rewrite repeat_app. reflexivity. Qed.
+  Lemma concat_const (v : bool) (w : list (list bool)) : concat (map (fun _ => repeat v bs) w) = repeat v (length w * bs).
+  Proof. induction w as [| b w IH]; simpl; auto. rewrite IH. rewrite repeat_app. reflexivity. Qed.
+  Lemma wf_repeat (v : bool) a : c11_bv_wf (repeat (repeat v bs) a).
+  Proof. unfold c11_bv_wf. rewrite Forall_forall. intros x Hx. apply repeat_spec in Hx. subst. apply repeat_length. Qed.
+  Lemma wf_firstn n w : c11_bv_wf w -> c11_bv_wf (firstn n w).
+  Proof. unfold c11_bv_wf. revert w; induction n; intros w H; simpl. constructor. destruct w; simpl. constructor. inversion H; subst. constructor; auto. Qed.
+  Lemma wf_const (v : bool) (w : list (list bool)) : c11_bv_wf (map (fun _ => repeat v bs) w).
+  Proof. unfold c11_bv_wf. rewrite Forall_forall. intros x Hx. apply in_map_iff in Hx. destruct Hx as [y [<- _]]. apply repeat_length. Qed.
+  Lemma count_concat w : c11_bitset_count (concat w) = fold_right (fun b acc => c11_bitset_count b + acc) 0 w.
+  Proof. unfold c11_bitset_count. induction w as [| b w IH]; simpl; auto. rewrite filter_app, app_length, IH. reflexivity. Qed.
+  Lemma pad_length b : length (c11_pad bs b) = bs.
+  Proof. unfold c11_pad. rewrite firstn_length, app_length, repeat_length. lia. Qed.
+  Lemma shl_length b k : length (c11_bitset_shl b k) = length b.
+  Proof. unfold c11_bitset_shl. rewrite firstn_length, app_length, repeat_length. lia. Qed.
+  Lemma shr_length b k : length (c11_bitset_shr b k) = length b.
+  Proof. unfold c11_bitset_shr. rewrite app_length, skipn_length, repeat_length. lia. Qed.
+
+  Definition Rb (s : c11_bv) (w : c11_bvs_world) : Prop := s = concat w /\ c11_bv_wf w.
+
+  (* replacing block i by a block of the right length *)
+  Lemma Rb_block w i b nb (r : c11_res c11_bv) : c11_bv_wf w -> nth_error w i = Some b -> length nb = bs ->
+    r = C11_ok (concat (c11_set_nth w i nb)) -> exists s', r = C11_ok s' /\ Rb s' (c11_set_nth w i nb).
+  Proof. intros Hwf Hi Hl ->. eexists; split; [reflexivity |]. split; auto. apply wf_set_nth; auto. Qed.
+
+  Lemma bv_step_sim : forall s w o w', Rb s w -> c11_bvs_step bs w o = Some w' ->
+    exists s', c11_bv_step bs s o = C11_ok s' /\ Rb s' w'.
+  Proof.
+    intros s w o w' [-> Hwf] Hs.
+    destruct o; cbn [c11_bvs_step c11_bv_step] in *; unfold c11_bvs_upd in *.
+    - (* resize *) injection Hs as <-. eexists; split; [reflexivity |]. split.
+      + rewrite concat_app, concat_repeat, firstn_concat by auto. rewrite (c11_bv_concat_length w Hwf).
+        rewrite Nat.mul_sub_distr_r. reflexivity.
+      + unfold c11_bv_wf. apply Forall_app. split. apply wf_firstn; auto. apply wf_repeat.
+    - injection Hs as <-. eexists; split; [reflexivity |]. split; auto. constructor.
+    - injection Hs as <-. eexists; split; [reflexivity |]. split. rewrite concat_const, (c11_bv_concat_length w Hwf). reflexivity. apply wf_const.
+    - injection Hs as <-. eexists; split; [reflexivity |]. split. rewrite concat_const, (c11_bv_concat_length w Hwf). reflexivity. apply wf_const.
+    - (* set bit *) destruct (j <? bs) eqn:Ej; [| discriminate]. apply Nat.ltb_lt in Ej.
+      destruct (nth_error w i) as [b |] eqn:Ei; [| discriminate]. injection Hs as <-.
+      destruct (c11_bitset_addressing_lemma w i j b v Hwf Ei Ej) as (_ & Hset & Hwf'). rewrite Hset. eexists; split; [reflexivity |]. split; auto.
+    - (* flip bit *) destruct (j <? bs) eqn:Ej; [| discriminate]. apply Nat.ltb_lt in Ej.
+      destruct (nth_error w i) as [b |] eqn:Ei; [| discriminate]. injection Hs as <-.
+      destruct (c11_bitset_addressing_lemma w i j b (negb (nth j b false)) Hwf Ei Ej) as (Hget & Hset & Hwf'). rewrite Hget. simpl. rewrite Hset.
+      eexists; split; [reflexivity |]. split; auto.
+    - (* set block *) destruct (nth_error w i) as [b |] eqn:Ei; [| discriminate]. injection Hs as <-.
+      apply (Rb_block w i b); auto. apply repeat_length.
+      apply (each_ok w i b (repeat true bs) Hwf Ei (repeat_length _ _)). intros j Hj.
+      apply write_const; auto.
+    - destruct (nth_error w i) as [b |] eqn:Ei; [| discriminate]. injection Hs as <-.
+      apply (Rb_block w i b); auto. apply repeat_length.
+      apply (each_ok w i b (repeat false bs) Hwf Ei (repeat_length _ _)). intros j Hj.
+      apply write_const; auto.
+    - (* flip block *) destruct (nth_error w i) as [b |] eqn:Ei; [| discriminate]. injection Hs as <-.
+      pose proof (wf_len w i b Hwf Ei) as Hb.
+      apply (Rb_block w i b); auto. rewrite map_length; auto.
+      assert (Hl : length (map negb b) = bs) by (rewrite map_length; auto).
+      apply (each_ok w i b (map negb b) Hwf Ei Hl). intros j Hj.
+      rewrite (read_i w i b (map negb b) Hwf Ei Hl j Hj). simpl.
+      replace (negb (nth j b false)) with (nth j (map negb b) false). apply write_step; auto.
+      rewrite (nth_indep _ false (negb false)) by lia. apply map_nth.
+    - (* assign bool *) destruct (nth_error w i) as [b |] eqn:Ei; [| discriminate]. injection Hs as <-.
+      apply (Rb_block w i b); auto. apply repeat_length.
+      apply (each_ok w i b (repeat v bs) Hwf Ei (repeat_length _ _)). intros j Hj.
+      apply write_const; auto.
+    - (* assign bits *) destruct (nth_error w i) as [b0 |] eqn:Ei; [| discriminate]. injection Hs as <-.
+      apply (Rb_block w i b0); auto. apply pad_length. apply (assign_ok w i b0); auto. apply pad_length.
+    - (* assign block *) destruct (nth_error w k) as [x |] eqn:Ek; [| discriminate].
+      destruct (nth_error w i) as [b |] eqn:Ei; [| discriminate]. injection Hs as <-.
+      pose proof (wf_len w k x Hwf Ek) as Hx.
+      apply (Rb_block w i b); auto.
+      apply (each_ok w i b x Hwf Ei Hx). intros j Hj.
+      assert (Hr : c11_bv_getBit bs (concat (W w i b x j)) k j = C11_ok (nth j x false)).
+      { destruct (Nat.eq_dec k i) as [-> | Hne].
+        - rewrite Ei in Ek. injection Ek as <-. apply read_i; auto.
+        - apply read_other; auto. }
+      rewrite Hr. simpl. apply write_step; auto.
+    - (* op with bitset *) destruct (nth_error w i) as [r |] eqn:Ei; [| discriminate]. injection Hs as <-.
+      pose proof (wf_len w i r Hwf Ei) as Hr.
+      rewrite (repr_ok w i r Hwf Ei). simpl.
+      assert (Hl : length (c11_bitset_zip (c11_bv_bfun o) r (c11_pad bs b)) = bs) by (rewrite c11_zip_length, pad_length; lia).
+      apply (Rb_block w i r); auto. apply (assign_ok w i r); auto.
+    - (* op with block *) destruct (nth_error w k) as [x |] eqn:Ek; [| discriminate].
+      destruct (nth_error w i) as [r |] eqn:Ei; [| discriminate]. injection Hs as <-.
+      pose proof (wf_len w i r Hwf Ei) as Hr. pose proof (wf_len w k x Hwf Ek) as Hx.
+      rewrite (repr_ok w k x Hwf Ek). simpl. rewrite (repr_ok w i r Hwf Ei). simpl.
+      assert (Hl : length (c11_bitset_zip (c11_bv_bfun o) r x) = bs) by (rewrite c11_zip_length; lia).
+      apply (Rb_block w i r); auto. apply (assign_ok w i r); auto.
+    - (* shl *) destruct (nth_error w i) as [r |] eqn:Ei; [| discriminate]. injection Hs as <-.
+      pose proof (wf_len w i r Hwf Ei) as Hr. rewrite (repr_ok w i r Hwf Ei). simpl.
+      assert (Hl : length (c11_bitset_shl r k) = bs) by (rewrite shl_length; auto).
+      apply (Rb_block w i r); auto. apply (assign_ok w i r); auto.
+    - (* shr *) destruct (nth_error w i) as [r |] eqn:Ei; [| discriminate]. injection Hs as <-.
+      pose proof (wf_len w i r Hwf Ei) as Hr. rewrite (repr_ok w i r Hwf Ei). simpl.
+      assert (Hl : length (c11_bitset_shr r k) = bs) by (rewrite shr_length; auto).
+      apply (Rb_block w i r); auto. apply (assign_ok w i r); auto.
+  Qed.
+
+  (* ------------------------------------------------------------ observation *)
+  Hypothesis Hbs : 0 < bs.
+
+  Lemma size_ok w : c11_bv_wf w -> c11_bv_size bs (concat w) = length w.
+  Proof. intros Hwf. unfold c11_bv_size. rewrite (c11_bv_concat_length w Hwf). apply Nat.div_mul. lia. Qed.
+
+  Lemma blocks_ok w : c11_bv_wf w -> c11_bv_blocks bs (concat w) = C11_ok w.
+  Proof.
+    intros Hwf. unfold c11_bv_blocks. rewrite size_ok by auto.
+    assert (G : forall k i, i + k = length w -> c11_bv_blocks_loop bs k i (concat w) = C11_ok (skipn i w)).
+    { induction k as [| k IH]; intros i Hi; simpl.
+      - rewrite skipn_all2 by lia. reflexivity.
+      - destruct (nth_error w i) as [b |] eqn:Ei; [| apply nth_error_None in Ei; lia].
+        rewrite (repr_ok w i b Hwf Ei). simpl. rewrite IH by lia. simpl. rewrite (c11_skipn_nth w i b Ei). reflexivity. }
+    apply (G (length w) 0). lia.
+  Qed.
+
+  Lemma countmasked_ok w j : c11_bv_wf w -> j < bs ->
+    c11_bv_countmasked bs (concat w) j = C11_ok (length (filter (fun b => nth j b false) w)).
+  Proof.
+    intros Hwf Hj. unfold c11_bv_countmasked. rewrite size_ok by auto.
+    assert (G : forall k i, i + k = length w ->
+              c11_bv_countmasked_loop bs k i (concat w) j = C11_ok (length (filter (fun b => nth j b false) (skipn i w)))).
+    { induction k as [| k IH]; intros i Hi; simpl.
+      - rewrite skipn_all2 by lia. reflexivity.
+      - destruct (nth_error w i) as [b |] eqn:Ei; [| apply nth_error_None in Ei; lia].
+        destruct (c11_bitset_addressing_lemma w i j b false Hwf Ei Hj) as (Hg & _ & _). rewrite Hg. simpl.
+        rewrite IH by lia. simpl. rewrite (c11_skipn_nth w i b Ei). simpl. destruct (nth j b false); reflexivity. }
+    apply (G (length w) 0). lia.
+  Qed.
+
+  Lemma cms_ok w : c11_bv_wf w -> forall js, (forall j, In j js -> j < bs) ->
+    c11_bv_cms bs (concat w) js = C11_ok (map (fun j => length (filter (fun b => nth j b false) w)) js).
+  Proof.
+    intros Hwf. induction js as [| j js IH]; intros Hjs; simpl; auto.
+    rewrite countmasked_ok by (auto; apply Hjs; left; auto). simpl. rewrite IH by (intros; apply Hjs; right; auto). reflexivity.
+  Qed.
+
+  Lemma bv_observe_sim : forall s w, Rb s w -> c11_bv_observe bs s = C11_ok (c11_bvs_observe bs w).
+  Proof.
+    intros s w [-> Hwf]. unfold c11_bv_observe, c11_bvs_observe. rewrite blocks_ok by auto. simpl.
+    rewrite cms_ok by (auto; intros j Hj; apply in_seq in Hj; lia). simpl.
+    unfold c11_bv_count. rewrite count_concat. reflexivity.
+  Qed.
+
+  Theorem c11_bitset_refines_lemma : forall ops tr,
+    c11_bvs_run bs [] ops = map Some tr -> c11_bv_run bs [] ops = map C11_ok tr.
+  Proof.
+    intros ops tr. unfold c11_bvs_run, c11_bv_run.
+    apply (c11_sim_run _ _ _ _ _ _ _ _ Rb bv_step_sim bv_observe_sim).
+    split; [reflexivity | constructor].
+  Qed.
 End BVP.
